@@ -46,7 +46,7 @@ def run(c):
     cases = [dict(kind="prog", prog=p["prog"], gets=2, shape="renumber") for p in progs]
     c.extra["tlc_exported_programs"] = len(cases)
     # (C)
-    cases.append(dict(kind="gen", seed=rng.getrandbits(40), count=4000 if c.thorough else 800, depth=6))
+    cases.append(dict(kind="gen", seed=rng.getrandbits(40), count=40000 if c.thorough else 800, depth=6))
     shapes = ["plain", "mapped", "flatmapped", "evenodd", "tailcall2"]
     for n in [10, 1000, 30000]:
         for shape in shapes + ["foldright"]:
